@@ -785,7 +785,7 @@ func init() {
 			"the membership model only changes when the call returned nil (kernel refusals such as mixing any-source and source-specific joins leave it unchanged)",
 		},
 		RequireCounters: []string{"datagrams_verified", "getter_kernel_comparisons"},
-		NumCases:        func(tier, build string) int { return vf.Tiered(tier, 240, 150000) },
+		NumCases:        func(tier, build string) int { return vf.Tiered(tier, 1000, 150000) },
 		Floor:           func(tier string) int { return vf.Tiered(tier, 50, 500) },
 		Run:             runC12,
 	})
